@@ -452,6 +452,12 @@ def edits(ctx: Ctx):
         except Exception:
             continue
         bad += redits.exercise(ctx, label, sim, rng.fork(label))
+        for f in redits.construction_orders(ctx, label, sim, rng.fork(label + ":orders")):
+            mm = f["mismatch"]
+            ctx.violation({"kind": "component-exists-without-its-route", "what": mm["kind"], "level": mm.get("level"),
+                           "state_when_added": f["state_at_edit"]},
+                          f"{label}: a {f['node_class']} built while {f['state_at_edit']} ({f['order']}): after {f['ops']} the object graph and "
+                          f"the request tree disagree: {mm}", {"scenario": label, "construction": f})
     ctx.oblige("rig:R-edits every real tree edit is local, leads to the component's own manager / leaves no route, and orders keys like "
                "addKey / removeKey", "correspondence", not bad, "; ".join(bad[:6]))
     for b in bad[:1]:
